@@ -97,6 +97,13 @@ def run_case(case, ctx):
         require(np.allclose(off, nn, atol=1e-9), "connectivity-geometry-disagrees-with-node_numbering", element=[i, j, k])
     gc = np.asarray(dom.get_elemconnectivity(EI.ravel(), EJ.ravel(), EK.ravel()))
     require(np.array_equal(gc, conn[enum.ravel()]), "get_elemconnectivity-differs-from-conn")
+    # index arrays of any shape (meshgrid / np.indices): entry [a, b, c] holds the connectivity of element (EI[a,b,c], EJ[a,b,c], EK[a,b,c])
+    gg = np.asarray(dom.get_elemconnectivity(EI, EJ, EK))
+    require(gg.shape == EI.shape + (2 ** dim,) and np.array_equal(gg, conn[enum]), "get_elemconnectivity-with-grid-shaped-indices-wrong",
+            got_shape=list(gg.shape), want_shape=list(EI.shape) + [2 ** dim])
+    g2 = np.asarray(dom.get_elemconnectivity(EI[:, :, 0], EJ[:, :, 0], EK[:, :, 0]))
+    require(g2.shape == EI.shape[:2] + (2 ** dim,) and np.array_equal(g2, conn[enum[:, :, 0]]), "get_elemconnectivity-with-grid-shaped-indices-wrong",
+            got_shape=list(g2.shape))
 
     # --- dof connectivity
     for ndof in (1, 2, 3, 4):
@@ -156,6 +163,18 @@ def run_case(case, ctx):
             # central differences are exact for multilinear functions up to rounding
             if not np.allclose(dN[d], fd, rtol=1e-8, atol=1e-9 / size[d]):
                 raise Violation("shape-function-derivative-is-not-the-gradient", axis=d, point=p, got=dN[d], fd=fd)
+    # --- evaluation points given in single precision (coordinates read from a float32 mesh file): the functions of these points,
+    # in double precision (element sizes are doubles)
+    for _ in range(4):
+        p32 = (rng.uniform(-0.5, 0.5, 3) * size).astype(np.float32)
+        if dim == 2:
+            p32[2] = 0
+        pd = p32.astype(float)
+        N32, N64 = np.asarray(dom.eval_shape_fun(p32)), np.asarray(dom.eval_shape_fun(pd))
+        d32, d64 = np.asarray(dom.eval_shape_fun_der(p32)), np.asarray(dom.eval_shape_fun_der(pd))
+        ctx.count("single_precision_points")
+        require(bool(np.allclose(N32, N64, rtol=0, atol=1e-13)) and bool(np.allclose(d32, d64, rtol=1e-13, atol=1e-13 / float(np.min(size[:dim])))),
+                "shape-functions-at-single-precision-point-differ-from-double-evaluation", point=pd, err=float(np.max(np.abs(N32 - N64))))
     # --- evaluation points given with an integer type (a list of ints, an index-like array) are points like any other
     sizeI = rng.uniform(2.5, 9.0, 3)
     domI = pym.DomainDefinition(nx, ny, nz, unitx=sizeI[0], unity=sizeI[1], unitz=sizeI[2])
